@@ -14,6 +14,11 @@ case kinds
   {"derive": {"lines": [...], "op": name}} | {"derive": {"network": expr, "op": "netlist"}}
                                   the text Lcapy itself produces by a rewrite (c.s_model(), c.kill(), c.subs(..), ...)
                                   or by network-to-netlist conversion  -> {"derived": text}
+  {"hist": [["add", line] | ["remove", name], ...]}
+                                  Circuit(); c.add(line) / c.remove(name) in that order
+      -> as for "lines" plus "gen": the names the namer handed out (c.namer.names), "counts": number of elements
+         after every operation  | {"error": kind ("unknown_name" for remove), "at": index of the offending operation}
+  {"roundtrip_hist": [...]}       the same history, then the print/parse stages of "roundtrip"
   {"vp": arg}                     lcapy.valueparser.value_parser(arg)
       -> {"vp": ["same", s]} | {"vp": ["float", "num/den"]}   (exact value of the float)
   {"opts": s}                     Opts(s)  -> {"opts": [...], "fmt": str(opts)}
@@ -111,6 +116,26 @@ def build(lines):
     return c, None
 
 
+def build_hist(ops, counts=None):
+    c = Circuit()
+    for i, (op, x) in enumerate(ops):
+        try:
+            if op == 'add':
+                c.add(x)
+            elif op == 'remove':
+                c.remove(x)
+            else:
+                raise RuntimeError('bad op')
+        except Exception as e:
+            kind = classify(e)
+            if op == 'remove' and isinstance(e, ValueError) and str(e).startswith('Unknown component: '):
+                kind = 'unknown_name'
+            return None, {'error': kind, 'at': i, 'etype': type(e).__name__, 'msg': str(e)[:200]}
+        if counts is not None:
+            counts.append(list(c.elements.keys()))
+    return c, None
+
+
 def build_file(path):
     try:
         return Circuit(path), None
@@ -133,12 +158,21 @@ def run(case):
         if err:
             return err
         return {'elts': snapshot(c), 'str': str(c), 'printed': [str(e) for e in c.elements.values()]}
-    if 'roundtrip' in case or 'roundtrip_file' in case:
+    if 'hist' in case:
+        c, err = build_hist(case['hist'])
+        if err:
+            return err
+        return {'elts': snapshot(c), 'str': str(c), 'printed': [str(e) for e in c.elements.values()], 'gen': list(c.namer.names)}
+    if 'roundtrip' in case or 'roundtrip_file' in case or 'roundtrip_hist' in case:
         out = {}
         lines = case.get('roundtrip')
         for stage in range(3):
             if stage == 0 and 'roundtrip_file' in case:
                 c, err = build_file(case['roundtrip_file'])
+            elif stage == 0 and 'roundtrip_hist' in case:
+                keys = []
+                c, err = build_hist(case['roundtrip_hist'], keys)
+                out['keys'] = keys
             else:
                 c, err = build(lines)
             if err:
